@@ -437,7 +437,9 @@ ChunkSizingResult<IntegerT> adjustChunkSizing(
     if (range.isAuto()) {
       isStatic = true;
     } else if (!range.isStatic()) {
-      maxThreads = range.size() - wait;
+      // Fewer items than threads: cap the thread count by the item count, but never raise it above
+      // what the caller asked for (options.maxThreads).
+      maxThreads = std::min<size_type>(maxThreads, range.size() - wait);
     }
   }
 
